@@ -56,6 +56,7 @@ else:
             :attr:`__dict__` attribute.
             """
             copy_ = numpy.ndarray.copy(self)
+            memo[id(self)] = copy_
             copy_.__dict__.update(copy.deepcopy(self.__dict__, memo))
             return copy_
 
